@@ -78,7 +78,7 @@ CHECKS.update({
 CHECKS.update({
     "C05": ("exploration",
             "schedule enumeration and generation at lock granularity (patched parking_lot + controlled scheduler) with a linearizability checker (exhaustive memoised Wing-Gong search per document) over the recorded call/return history",
-            "2-3 client threads run programs of write / overwrite / delete / batch delete / point read / read with metadata / bulk read / metadata read / exists / drain / search on two shared ids (one mirrored in the recent-write tier, one canonical-only with a warm L1a entry); every write carries a unique version in the vector AND the metadata (plus same-vector writes whose version is in the metadata only, indistinguishable by vector digest). Part pairs: every ordered pair of single-operation programs (and the same pair preceded by a fresh write) on each id x 5 cache strategies x 3 engine shapes x EVERY single-preemption schedule (complete at bound 1; ~210k schedules). Part programs: generated programs x 1-4 generated preemptions. Oracles: a linearization exists per id (real-time order respected, reads return the latest write or absent), no read returns a version that was not written, vector and metadata of one read carry the same version; quiescent reads before and after a quiescent drain are appended to every history. Part server_reads (real server binary, OS schedule): one writer client running 150-600 sequential overwrites (version in the vector and in the metadata) and deletes on one id against 1-2 reader clients (Query / BulkQuery with embeddings) and optionally a client forcing drains; every completed read must pair vector and metadata of one write and must equal the state after some writer operation between the last one acknowledged before the read began and the last one sent when it returned.",
+            "2-3 client threads run programs of write / overwrite / delete / batch delete / point read / read with metadata / bulk read / metadata read / exists / drain / search on two shared ids (one mirrored in the recent-write tier, one canonical-only with a warm L1a entry); every write carries a unique version in the vector AND the metadata (plus same-vector writes whose version is in the metadata only, indistinguishable by vector digest). Part pairs: every ordered pair of single-operation programs (and the same pair preceded by a fresh write) on each id x 5 cache strategies x 3 engine shapes x EVERY single-preemption schedule (complete at bound 1; ~210k schedules). Part programs: generated programs x 1-4 generated preemptions. Oracles: a linearization exists per id (real-time order respected, reads return the latest write or absent), no read returns a version that was not written, vector and metadata of one read carry the same version; quiescent reads before and after a quiescent drain are appended to every history. Part server_reads (real server binary, OS schedule): one writer client running 150-600 sequential overwrites (version in the vector and in the metadata), metadata-only updates and deletes on one id against 1-2 reader clients (Query / BulkQuery with embeddings) and optionally a client forcing drains; every completed read must pair vector and metadata of one write and must equal the state after some writer operation between the last one acknowledged before the read began and the last one sent when it returned.",
             "Scheduling points are lock operations and API-call boundaries: races on atomics between two lock operations are not interleaved. A delete's `existed` flag is not judged (the property constrains reads); writes returning Err may or may not take effect. The schedule-controlled parts drive the engine API (TieredEngine); the gRPC handlers are driven only by the server_reads part under the OS schedule (a clean pass there is weak evidence; it found C05-F4 in the first cases).",
             "DESIGN.md §3 C05, §2.5"),
 })
